@@ -32,7 +32,7 @@ CHECKS = {
     "C06": ("exploration",
             "Hypothesis stateful testing (RuleBasedStateMachine): operation histories applied to RaggedArray and to a list-of-rows model, every observer compared after every step; shrunk JSON history replays without Hypothesis; separate aliasing clause",
             "Model-based stateful search: rules draw operations valid for the current model state (element/row/row-slice/2-D slice/column/fancy/mask writes, appends, augmented and binary operators), the invariant compares rows, iteration, flat data, lengths, starts, size, shape, every element, reductions and comparisons with the model after each step; operators must return new objects and leave operands unchanged.",
-            "Same-length row assignment only; writes through row views excluded; entirely empty write selections may raise but must not change anything; dtype of the flat buffer not compared.",
+            "Whole-row assignment changes the row length only while the array is ragged (on equal-length arrays it is a numpy block assignment) or through a[rows] = RaggedArray; writes through row views excluded; entirely empty write selections may raise but must not change anything; a write numpy refuses for the model (wrong number of values) must be refused and leave every view unchanged; dtype of the flat buffer not compared.",
             "DESIGN.md §2 C06, §7.2"),
     "C10": ("exploration",
             "Hypothesis-generated data/centers/metrics/length vectors vs brute-force distance matrix (any minimiser accepted), partition round-trip and index-addressing oracles, synthetic trajectory files for batch reassignment vs Kabsch/md.rmsd brute force; exhaustive small partition enumeration",
@@ -60,7 +60,7 @@ CHECKS = {
             "Dense ndarray flux matrices; num_paths >= 1; decisions within 1e-9 of the cutoff not judged.",
             "DESIGN.md §2 C17"),
     "C19": ("fault_enumeration",
-            "Fault injection (pre-filled outputs for every masked ufunc without out= and every np.empty/empty_like, 5 fill patterns) + metamorphic relations (repeat, rebuilt arguments, thread counts, preceding call history, argument immutability) over a registry of 35 numerical routines with Hypothesis-generated arguments; AST pass as denominator",
+            "Fault injection (pre-filled outputs for every masked ufunc without out= and every np.empty/empty_like, 5 fill patterns) + metamorphic relations (repeat, rebuilt arguments, thread counts, preceding call history, argument immutability, in-place refill of the argument arrays followed by an immediate second call, results keep their value across later calls) over a registry of ~60 numerical routines with Hypothesis-generated arguments, plus the >= 1000-state iterative eigen-solver branch and worker-process bootstrap; AST pass as denominator",
             "For each generated call the result must be bit-identical under every injected heap fill, every thread count, after any generated prefix of other library calls and on repetition, and arguments must be unchanged. The evidence lists which masked call sites / empty allocations the wrappers actually observed against the AST-derived list.",
             "Heap contents are modelled by pre-filling buffers numpy is left to allocate, not by driving malloc; OpenMP schedules not controllable.",
             "DESIGN.md §2 C19"),
